@@ -121,6 +121,8 @@ class Program:
         for c in self.classes.values():
             c.bases = [self._resolve_base(c.module, b) for b in c.base_exprs]
         self._mro_cache: Dict[str, List[str]] = {}
+        self.propagated_constants: Dict[str, object] = {}
+        self._propagate_constants()
 
     # ------------------------------------------------------------------ loading
     def _load(self, modname, rel):
@@ -294,6 +296,73 @@ class Program:
         return None
 
     # ------------------------------------------------------------------ resolution
+    # ------------------------------------------------------------------ literal constants hoisted to module level
+    def _propagate_constants(self):
+        """A module-level name bound exactly once to a string / number / bytes literal (or a tuple of such) and never rebound is
+        replaced by that literal wherever a function body reads it (same module, or imported by name).  Rules that look for the
+        text a function emits then see the same constants whether they are written in place or hoisted."""
+        consts: Dict[Tuple[str, str], object] = {}
+
+        def lit(e):
+            if isinstance(e, ast.Constant) and isinstance(e.value, (str, bytes, int, float)) and not isinstance(e.value, bool):
+                return True
+            return isinstance(e, ast.Tuple) and bool(e.elts) and all(lit(x) for x in e.elts)
+
+        for m, u in self.units.items():
+            counts: Dict[str, int] = {}
+            vals: Dict[str, ast.expr] = {}
+            for st in u.tree.body:
+                tg = []
+                if isinstance(st, ast.Assign):
+                    tg = st.targets
+                elif isinstance(st, (ast.AugAssign, ast.AnnAssign)):
+                    tg = [st.target]
+                for t in tg:
+                    for x in ast.walk(t):
+                        if isinstance(x, ast.Name):
+                            counts[x.id] = counts.get(x.id, 0) + 1
+                if isinstance(st, ast.Assign) and len(st.targets) == 1 and isinstance(st.targets[0], ast.Name) and lit(st.value):
+                    vals[st.targets[0].id] = st.value
+            rebound = set()
+            for n in ast.walk(u.tree):
+                if isinstance(n, (ast.Global, ast.Nonlocal)):
+                    rebound |= set(n.names)
+            for name, v in vals.items():
+                if counts.get(name) == 1 and name not in rebound and not (name.startswith("__") and name.endswith("__")):
+                    consts[(m, name)] = v
+        prog = self
+
+        class Sub(ast.NodeTransformer):
+            def __init__(self, mod, shadow):
+                self.mod, self.shadow = mod, shadow
+
+            def visit_Name(self, n):
+                if not isinstance(n.ctx, ast.Load) or n.id in self.shadow:
+                    return n
+                r = prog.resolve_name(self.mod, n.id)
+                if r and r[0] == "var" and (r[1], r[2]) in consts:
+                    prog.propagated_constants["%s.%s" % (r[1], r[2])] = True
+                    return ast.copy_location(copy.deepcopy(consts[(r[1], r[2])]), n)
+                return n
+
+        import copy
+
+        for q, fi in self.functions.items():
+            if fi.parent is not None:
+                continue  # nested functions are rewritten with their outermost function
+            node = fi.node
+            shadow = set()
+            for x in ast.walk(node):
+                if isinstance(x, ast.Name) and isinstance(x.ctx, (ast.Store, ast.Del)):
+                    shadow.add(x.id)
+                elif isinstance(x, ast.arg):
+                    shadow.add(x.arg)
+            sub = Sub(fi.module, shadow)
+            if isinstance(node, ast.Lambda):
+                node.body = sub.visit(node.body)
+            else:
+                node.body = [sub.visit(st) for st in node.body]
+
     def resolve_name(self, modname: str, name: str, _depth=0) -> Optional[tuple]:
         """Follow import chains to ('class',q) ('func',q) ('var',mod,name) ('module',m) ('ext',d)."""
         if _depth > 10:
